@@ -131,3 +131,18 @@ Definition defines_reported (t : cres) (ty : ctype) (d1 d2 : defines) : Prop :=
   (forall k v v2, In (k, v) d1 -> In (k, v2) d2 -> fst v <> fst v2 -> reports t [(ty, -1)] RChanged TDefinition (fst v)) /\
   (forall k v v2, In (k, v) d1 -> In (k, v2) d2 -> snd v <> snd v2 -> reports t [(ty, -1)] RChanged TDefaultValue (fst v)) /\
   (forall k v, In (k, v) d2 -> ~ In k (keys d1) -> reports t [(ty, -1)] RAdded (TDefine k) (-1)).
+
+(* ------------------------------------------------------------------ which frames belong together *)
+(* the documented pairing rule, as a symmetric relation: frames of one name; failing that - neither name occurs in the
+   other matrix - frames of one identifier *)
+Definition paired (a b : matrix) (f1 f2 : frame) : Prop :=
+  In f1 (m_frames a) /\ In f2 (m_frames b) /\
+  (fr_name f1 = fr_name f2 \/
+   (~ In (fr_name f1) (map fr_name (m_frames b)) /\ ~ In (fr_name f2) (map fr_name (m_frames a)) /\ arb f1 = arb f2)).
+
+(* names of the frames reported directly below the root with a result satisfying `want` *)
+Definition top_frames (want : cresult -> bool) (t : cres) : list Z :=
+  flat_map (fun k => match k with
+                     | Node r TFRAME ref [] => if want r then [ref] else []
+                     | _ => []
+                     end) (kids_of t).
